@@ -999,12 +999,16 @@ class Variable(CanBehaveLikeAVariable[T]):
         self._eval_parent_ = parent
         sources = sources or {}
         if self._id_ in sources:
+            # The truth of the bound value only matters where the variable is used as a condition. As an operand
+            # (of a comparator, an attribute access, ...) a falsy value such as 0 is a value like any other.
+            is_false = False
             if (
                 isinstance(self._parent_, LogicalBinaryOperator)
                 or self is self._conditions_root_
             ):
-                self._is_false_ = not bool(sources[self._id_])
-            yield OperationResult(sources, not bool(sources[self._id_]), self)
+                is_false = not bool(sources[self._id_])
+                self._is_false_ = is_false
+            yield OperationResult(sources, is_false, self)
         elif self._domain_:
             for v in self._domain_:
                 yield OperationResult(
